@@ -60,7 +60,8 @@ func (c *Ctx) Tag(tag string) { c.Tags[tag]++ }
 
 func (c *Ctx) next() int { c.n++; return c.n }
 
-var stems = []string{"alpha", "bravo", "delta", "gamma", "kappa", "omega", "sigma", "theta", "lambda", "zeta"}
+// (the last four end in id / ids, which goag's identifier casing treats specially)
+var stems = []string{"alpha", "bravo", "delta", "gamma", "kappa", "omega", "sigma", "theta", "lambda", "zeta", "grid", "bids", "android", "paid"}
 
 // SafeName draws a name that is >=5 characters, carries a digit, is unique within
 // the document (and stays unique after case-folding and removal of
@@ -106,6 +107,10 @@ func (c *Ctx) QueryName(prefix, label string) string {
 // PlainName is SafeName restricted to [a-z0-9] (for path segments and variables).
 func (c *Ctx) PlainName(prefix, label string) string {
 	stem := rapid.SampledFrom(stems).Draw(c.T, label+"_stem")
+	// a word that *ends* in id / ids (bids, grid): the number goes in front
+	if strings.HasSuffix(stem, "id") || strings.HasSuffix(stem, "ids") {
+		return fmt.Sprintf("%s%d%s", prefix, c.next(), stem)
+	}
 	return fmt.Sprintf("%s%s%d", prefix, stem, c.next())
 }
 
@@ -775,6 +780,8 @@ func BaseForms() []BaseForm {
 		{Name: "second-server-ignored", Servers: []*Server{{URL: "/v1"}, {URL: "/v2"}}, Expected: "/v1"},
 		{Name: "flag-root-over-servers", Servers: []*Server{{URL: "https://h.example/api/v1"}}, Flag: "/"},
 		{Name: "flag-trailing-slash", Flag: "/x/"},
+		{Name: "first-server-without-path", Servers: []*Server{{URL: "https://h.example"}, {URL: "https://staging.example/v2"}}, Expected: ""},
+		{Name: "first-server-variable-host-only", Servers: []*Server{{URL: "https://{region}.api.example.com", Variables: map[string]*ServerVariable{"region": {Default: "eu"}}}, {URL: "/v3"}}, Expected: ""},
 		{Name: "server-variable-used-twice", Servers: []*Server{{URL: "https://{region}.api.example.com/{region}/{version}", Variables: map[string]*ServerVariable{"region": {Default: "eu"}, "version": {Default: "v2"}}}}, Expected: "/eu/v2"},
 	}
 }
